@@ -9,8 +9,9 @@
         are dropped exactly when keep_coords is false;
   R19.3 stripping         - on every padding path pad() strips all coordinates (including index coordinates)
         from the data before padding;
-  R19.4 cumsum path       - the old dimension is renamed to the target position's dimension and all coordinates
-        are dropped before re-attaching.
+  R19.4 cumsum path       - for every shift: the coordinate state of the result just before re-attaching, computed
+        from the lineage (rename / drop_vars / reset_coords / reset_index / padding semantics), holds no
+        index coordinate of the abandoned position (under either name) and no non-index coordinate.
 Coordinate values/attributes and the name of the result are produced by xarray (not decided).
 """
 from __future__ import annotations
@@ -78,8 +79,13 @@ def _pass_through(ctx, P):
             ctx.ok("R19.1", f"apply_as_grid_ufunc, {name}", "returned through _reattach_coords(grid, keep_coords)")
     # cumsum path
     cfi = P.func("grid:Grid.cumsum")
-    try:
-        outs = _run_cumsum(P, "center", "outer")
+    for fr, to in (("center", "outer"), ("center", "right"), ("center", "left"), ("left", "center"), ("right", "center"), ("outer", "center"), ("inner", "center")):
+        name = f"cumsum {fr}->{to}"
+        try:
+            outs = _run_cumsum(P, fr, to)
+        except Unmodelled as e:
+            ctx.unknown("R19.1", name, str(e))
+            continue
         bad = None
         for o in outs:
             v = o.value
@@ -92,17 +98,87 @@ def _pass_through(ctx, P):
                 bad = "cumsum re-attaches coordinates from another grid / ignores keep_coords"
             if ops[i + 1:]:
                 bad = bad or f"operations {ops[i + 1:]} follow the re-attachment"
-            if "rename" not in ops[:i] or "drop_vars" not in ops[:i] or ops.index("rename") > ops.index("drop_vars"):
-                ctx.report("R19.4", cfi, "cumsum: rename then drop before re-attaching", f"operations before re-attaching are {ops[:i]}; expected rename to the target dimension, then dropping all coordinates")
+            inst = f"{name}: no stale coordinate reaches the re-attachment"
+            try:
+                stale = _stale_before_reattach(v, i, dimsym("AX", fr), dimsym("AX", to))
+            except Unmodelled as e:
+                ctx.unknown("R19.4", inst, str(e))
+                continue
+            if stale:
+                ctx.report("R19.4", cfi, inst, f"operations before re-attaching are {ops[:i]}: {stale}")
             else:
-                dv = v.eff[ops.index("drop_vars")]
-                ctx.ok("R19.4", "cumsum: rename then drop before re-attaching", "old dimension renamed, stale coordinates dropped")
+                ctx.ok("R19.4", inst, "old dimension renamed; index and non-index coordinates of the input are gone before the grid's are attached")
         if bad:
-            ctx.report("R19.1", cfi, "cumsum", bad)
+            ctx.report("R19.1", cfi, name, bad)
         else:
-            ctx.ok("R19.1", "cumsum", "returned through _reattach_coords(grid, keep_coords)")
-    except Unmodelled as e:
-        ctx.unknown("R19.1", "cumsum", str(e))
+            ctx.ok("R19.1", name, "returned through _reattach_coords(grid, keep_coords)")
+
+
+def _stale_before_reattach(v, i, old_dim, new_dim):
+    """Coordinate state of the cumsum result just before _reattach_coords, from its lineage.
+
+    Tokens: ('idx', d) = index coordinate named after dimension d; 'nd' = the input's non-index coordinates (any of
+    them may be defined on the shifted dimension).  xarray semantics used: rename of a dimension renames its index
+    coordinate with it; drop_vars(x.coords) removes every coordinate; reset_coords(drop=True) removes the non-index
+    ones only; reset_index(names, drop=True) removes the named index coordinates; pad() with a non-zero width works
+    on coordinate-stripped data (R19.3) and returns its input untouched when every width is zero."""
+    from ..absint import BoundMethod
+
+    state = {("idx", old_dim), ("idx", Sym("t")), "nd"}
+    dimname = old_dim
+    for e in v.eff[:i]:
+        op = e[0]
+        if op in ("cumsum", "isel", "copy", "astype", "chunk", "transpose"):
+            continue
+        if op == "PAD":
+            widths = e[1]
+            if not isinstance(widths, dict):
+                raise Unmodelled("pad widths of the cumsum path are not a mapping")
+            if any(w != (0, 0) for w in widths.values()):
+                state = set()
+        elif op == "rename":
+            m = e[1][0] if e[1] else dict(e[2])
+            if not isinstance(m, dict):
+                raise Unmodelled("rename without a mapping")
+            state = {("idx", m.get(t[1], t[1])) if isinstance(t, tuple) else t for t in state}
+            dimname = m.get(dimname, dimname)
+        elif op == "drop_vars":
+            arg = e[1][0] if e[1] else None
+            if isinstance(arg, BoundMethod) and arg.name == "coords":
+                state = set()
+            elif isinstance(arg, (list, tuple, set, frozenset)):
+                state = {t for t in state if not (isinstance(t, tuple) and t[1] in arg)}
+            elif isinstance(arg, (Sym, str)):
+                state = {t for t in state if not (isinstance(t, tuple) and t[1] == arg)}
+            else:
+                raise Unmodelled(f"drop_vars({arg!r})")
+        elif op == "reset_coords":
+            if dict(e[2]).get("drop") is True or (len(e[1]) > 1 and e[1][1] is True):
+                state.discard("nd")
+            else:
+                raise Unmodelled("reset_coords without drop=True turns the array into a dataset")
+        elif op == "reset_index":
+            names = e[1][0] if e[1] else None
+            if dict(e[2]).get("drop") is not True:
+                continue  # the index becomes a non-index coordinate: still a coordinate
+            if isinstance(names, (list, tuple)):
+                state = {t for t in state if not (isinstance(t, tuple) and t[1] in names)}
+            elif isinstance(names, (Sym, str)):
+                state = {t for t in state if t != ("idx", names)}
+            else:
+                raise Unmodelled(f"reset_index({names!r})")
+        else:
+            raise Unmodelled(f"coordinate effect of `{op}` on the cumsum path")
+    problems = []
+    if dimname != new_dim:
+        problems.append(f"the shifted dimension is called {dimname!r} when the grid's coordinates are attached, not {new_dim!r}")
+    if ("idx", old_dim) in state:
+        problems.append("the abandoned position's index coordinate survives")
+    if ("idx", new_dim) in state:
+        problems.append("the abandoned position's index coordinate survives under the new dimension's name (a dataset without a coordinate for the target position does not overwrite it)")
+    if "nd" in state:
+        problems.append("non-index coordinates of the input (possibly defined on the abandoned dimension) survive")
+    return "; ".join(problems)
 
 
 def _reattach(ctx, P):
@@ -135,14 +211,36 @@ def _reattach(ctx, P):
 
         return {("DataArray", "assign_coords"): assign_coords, ("DataArray", "drop_vars"): drop_vars}
 
+    from ..absint import BoundMethod
+
+    def from_grid(k, val):
+        """val is the grid dataset's coordinate k: the object itself, its .variable, or a copy of it."""
+        src = ds_coords.get(k)
+        if src is None:
+            return False
+        if val is src:
+            return True
+        if isinstance(val, BoundMethod) and val.recv is src and val.name in ("variable", "_variable"):
+            return True
+        if isinstance(val, Obj) and val.name == src.name and all(e[0] in ("copy", "reset_coords") for e in val.eff):
+            return True
+        return False
+
+    # what the array handed to _reattach_coords may already carry: nothing (padded paths strip everything), or, on an
+    # unpadded path, what apply_ufunc passed through from the input on the untouched dimensions
+    carried = {
+        "coordinate-free result": {},
+        "result carrying the input's coordinates on untouched dimensions": {k: ds_coords[k] for k in (T, YC, Sym("scalar"), Sym("depth_t"))},
+    }
     for keep in (True, False):
-        inst = f"_reattach_coords, keep_coords={keep}"
+      for cname, pre in carried.items():
+        inst = f"_reattach_coords, keep_coords={keep}, {cname}"
         ev = Evaluator(P, method_models=models(), attr_models={("DataArray", "coords"): lambda ev, o, n: dict(o.attrs.get("coords", {}))},
                        models={"warnings.warn": lambda ev, a, k, n: None})
 
         def make():
             g = make_grid(("AX", "AY"), ds=Obj("Dataset", "grid_ds", (), {"coords": dict(ds_coords)}))
-            res = make_da("res", res_dims, coords={})
+            res = make_da("res", res_dims, coords=dict(pre))
             return dict(results=[res], grid=g, boundary_width={"AX": (1, 0)}, keep_coords=keep)
 
         try:
@@ -163,9 +261,9 @@ def _reattach(ctx, P):
                 bad = f"result carries coordinates {sorted(map(repr, got))}; " + (f"unexpected {sorted(map(repr, extra))} " if extra else "") + (f"missing {sorted(map(repr, missing))} " if missing else "") + \
                     "(exactly the grid dataset's coordinates whose dimensions all occur in the result" + ("" if keep else ", minus non-dimension coordinates since keep_coords is false") + ")"
             else:
-                assigned = [e for e in v.eff if e[0] == "assign_coords"]
-                if any(val is not ds_coords.get(k) and not (isinstance(val, Obj) and val.name == ds_coords[k].name) for e in assigned for k, val in e[1].items()):
-                    bad = "a coordinate is not taken from the grid's dataset"
+                foreign = [k for k, val in v.attrs.get("coords", {}).items() if not from_grid(k, val)]
+                if foreign:
+                    bad = f"coordinate(s) {sorted(map(repr, foreign))} of the result are not the grid dataset's"
         if bad:
             ctx.report("R19.2", fi, inst, bad)
         else:
